@@ -93,6 +93,7 @@ SLICES = {
     'constants-print': (('consts', 'printrefs'), X.tf_constants(True), X.need(ap_extconsts, 'const-in-print'), 1),
     'constants-all': (('consts', 'localconst', 'internal'), X.tf_constants(False), ap_consts, 1),
     'xform-default': (('modsubs', 'marked', 'functions', 'elemental', 'optional'), X.tf_transformation(), ap_any, 2),
+    'xform-nodce': (('modsubs', 'marked', 'functions', 'elemental'), X.tf_transformation(remove_dead_code=False), ap_any, 2),
     'xform-all': (('modsubs', 'marked', 'stmtfunc', 'consts', 'internal'),
                   X.tf_transformation(inline_constants=True, inline_stmt_funcs=True, inline_internals=True, inline_elementals=False,
                                       remove_dead_code=False), ap_any, 2),
